@@ -87,6 +87,8 @@ structure HSt where
   elementLevel : Nat := 0
   propsStack : List Nat := []
   hasNamespaceStack : List Bool := []
+  /-- `m_nextIsRaw` of the FormatterToXML base -/
+  nextIsRaw : Bool := false
 deriving Repr, Inhabited
 
 /-- `FormatterToXML::indent(n)` -/
@@ -243,7 +245,8 @@ def procInstr (cfg : HtmlCfg) (st : HSt) (target data : Str) : HSt × List HTok 
 def endDocument (cfg : HtmlCfg) (st : HSt) : List HTok :=
   if cfg.doIndent && !st.isprevtext then [HTok.t .nl] else []
 
-def step (cfg : HtmlCfg) (st : HSt) : Ev → HSt × List HTok
+/-- the handlers below the `m_nextIsRaw` test -/
+def stepCore (cfg : HtmlCfg) (st : HSt) : Ev → HSt × List HTok
   | .startElement n a => startElement cfg st n a
   | .endElement n => endElement cfg st n
   | .characters t => characters cfg st t
@@ -251,6 +254,23 @@ def step (cfg : HtmlCfg) (st : HSt) : Ev → HSt × List HTok
   | .raw t => charactersRaw cfg st t
   | .comment t => comment cfg st t
   | .pi t d => procInstr cfg st t d
+
+/-- `FormatterToHTML::processingInstruction` 640-650 (the marker PI sets `m_nextIsRaw`) and `FormatterToHTML::characters`
+491-503: a non-empty text with the flag set resets it and goes to `charactersRaw`; `m_isprevtext` is set at the end of
+`characters` in every case -/
+def step (cfg : HtmlCfg) (st : HSt) : Ev → HSt × List HTok
+  | .pi t d => if isRawMarker t d then ({ st with nextIsRaw := true }, []) else stepCore cfg st (.pi t d)
+  | .characters t =>
+    if !t.isEmpty && st.nextIsRaw then
+      let r := stepCore cfg { st with nextIsRaw := false } (.raw t)
+      ({ r.1 with isprevtext := true }, r.2)
+    else stepCore cfg st (.characters t)
+  | .cdata t =>
+    if !t.isEmpty && st.nextIsRaw then
+      let r := stepCore cfg { st with nextIsRaw := false } (.raw t)
+      ({ r.1 with isprevtext := true }, r.2)
+    else stepCore cfg st (.cdata t)
+  | e => stepCore cfg st e
 
 def runFrom (cfg : HtmlCfg) : HSt → List Ev → HSt × List HTok
   | st, [] => (st, [])
